@@ -88,13 +88,19 @@ TrRewrite ==
 
 (* one iteration of Runner::run / run_eqsat.  ret (what apply_rewrites returned) is not
    logged: the specification may choose it, but fp_changed => ret *)
-StopOf(ret) == IF cfgv.kind = "runner"
-               THEN RunnerStopL(cfgv.iter_limit, cfgv.node_limit, iter, ret, ev.hook_ok, ev.nodes)
-               ELSE EqsatStopL(cfgv.iter_limit, iter, ret, ev.hook_ok)
+(* The loop's own clock is not observable.  The recorder brackets it: lo_ms <= elapsed <= hi_ms
+   (lo: end of this iteration's hook minus start of the first hook, which is after the loop
+   started its clock; hi: the next thing the recorder sees - the next hook or the return of
+   the call - minus the time just before the call).  The decision is monotone in the elapsed
+   time, so the two end points give all possible outcomes.                                   *)
+StopOf(ret, e) == IF cfgv.kind = "runner"
+               THEN RunnerStopL(cfgv.iter_limit, cfgv.node_limit, cfgv.time_limit_ms, iter, ret, ev.hook_ok, ev.nodes, e)
+               ELSE EqsatStopL(cfgv.iter_limit, cfgv.time_limit_ms, iter, ret, ev.hook_ok, e)
 TrIter ==
   /\ IsEvent("iter") /\ UNCHANGED cfgv
-  /\ LET possible == {StopOf(ret) : ret \in {r \in BOOLEAN : ev.fp_changed => r}} IN
+  /\ LET possible == {StopOf(ret, e) : ret \in {r \in BOOLEAN : ev.fp_changed => r}, e \in {ev.lo_ms, ev.hi_ms}} IN
      /\ Check(stop = "none", "C15", "an iteration ran after the runner had stopped")
+     /\ Check(ev.lo_ms <= ev.hi_ms, "C15", "recorder clock bracket is empty")
      /\ Check(ev.stop \in possible, "C15", "stop decision of this iteration is not the one the control loop specifies")
      /\ stop' = ev.stop
      /\ iter' = IF cfgv.kind = "runner" \/ ev.stop = "none" THEN iter + 1 ELSE iter
@@ -108,6 +114,7 @@ TrStop ==
   /\ Check(stop = "saturated" => ~ev.again_fp_changed /\ ev.matches_equal, "C15", "stopped as saturated but applying the rules again changes something / a match has unequal sides")
   /\ Check(stop = "node" => ev.actual_nodes > cfgv.node_limit, "C15", "NodeLimit reported but the limit is not exceeded")
   /\ Check(stop = "iter" => (IF cfgv.kind = "runner" THEN iter - 1 > cfgv.iter_limit ELSE iter >= cfgv.iter_limit), "C15", "IterationLimit reported but the limit is not reached")
+  /\ Check(stop = "time" => (IF cfgv.kind = "runner" THEN ev.total_hi_ms > cfgv.time_limit_ms ELSE ev.total_hi_ms >= cfgv.time_limit_ms), "C15", "TimeLimit reported but the time limit had not passed when the call returned")
   /\ Check(stop = "other" => ev.hook_failed, "C15", "Other reported but no hook failed")
 
 TraceInit == l = 1 /\ iter = 0 /\ stop = "none" /\ cfgv = [kind |-> "none"]
